@@ -53,6 +53,8 @@ type c03Cfg struct {
 	Mode     string `json:"mode"`
 	HostList string `json:"host_list"`
 	User     string `json:"user"`
+	// NoVerifyIP: client-address verification switched off (the token host rule is independent of it)
+	NoVerifyIP bool `json:"verify_client_ip_off,omitempty"`
 }
 
 type c03Req struct {
@@ -91,12 +93,12 @@ func c03Decode(r c03Req) (host string, ok bool) {
 
 func CheckC03(l *Lab, verifDir string) int {
 	rep := NewReport("C03", l.Tier, l.Seed, "exploration", verifDir)
-	rep.Rule = "one real gateway process (under strace -e connect) per configuration {any, signed, roundrobin, unsigned} x host lists (literal entries, user placeholder, IPv6, names whose substitution collides with another entry) x users (incl. empty and a user whose name contains another's) x {token auth via openid, ntlm stand-in}; per process the allowed entries and generated near-misses of them (port +-1 / 0 / 65535, trailing dot, case, proper prefix / suffix / superstring, another user's substituted entry, the template text, embedded / doubled / trailing NUL, bracketed IPv4, IPv6 variants, surrogates, odd-length UTF-16, nameSize larger / smaller than the bytes present, resource counts != 1/0) are sent as channel-create requests on fresh tunnels. Oracle: independent policy model P(mode, hosts, user, token host, requested); allow => status 0, exactly one dial event and connect() to the requested address, the accept lands on the named listener and on no decoy (listeners on port-1 / port+1 and others); deny => resource-access-denied status, no dial event, no accept anywhere, no connect() except to the IdP / auth socket. Concurrent phase: one process per list mode with 25 placeholder entries and two users, rounds of 32 tunnels walked to tunnel-auth and released at once, half asking for their own substituted entry (must be allowed) and half for the other user's (must be denied, listener accept counts must equal the allowed requests). non-trivial = channel-create answered; distinct = configuration x request class x outcome"
+	rep.Rule = "one real gateway process (under strace -e connect) per configuration {any, signed, roundrobin, unsigned} x host lists (literal entries, user placeholder, IPv6, names whose substitution collides with another entry) x users (incl. empty and a user whose name contains another's) x {token auth via openid, ntlm stand-in}; per process the allowed entries and generated near-misses of them (port +-1 / 0 / 65535, trailing dot, case, proper prefix / suffix / superstring, another user's substituted entry, the template text, embedded / doubled / trailing NUL, bracketed IPv4, IPv6 variants, surrogates, odd-length UTF-16, nameSize larger / smaller than the bytes present, resource counts != 1/0, alternate resource names behind an allowed / unreachable / denied resource name); a host list whose entry is not listening while another address listens on the same port; client-address verification switched off in half of the token configurations are sent as channel-create requests on fresh tunnels. Oracle: independent policy model P(mode, hosts, user, token host, requested); allow => status 0, exactly one dial event and connect() to the requested address, the accept lands on the named listener and on no decoy (listeners on port-1 / port+1 and others); deny => resource-access-denied status, no dial event, no accept anywhere, no connect() except to the IdP / auth socket. Concurrent phase: one process per list mode with 25 placeholder entries and two users, rounds of 32 tunnels walked to tunnel-auth and released at once, half asking for their own substituted entry (must be allowed) and half for the other user's (must be denied, listener accept counts must equal the allowed requests). non-trivial = channel-create answered; distinct = configuration x request class x outcome"
 	var cfgs []c03Cfg
 	id := 0
 	for _, kind := range []string{"openid", "ntlm"} {
 		for _, mode := range []string{"roundrobin", "unsigned", "any", "signed"} {
-			for _, hl := range []string{"literal", "placeholder", "mixed-collision", "ipv6", "short-port"} {
+			for _, hl := range []string{"literal", "placeholder", "mixed-collision", "ipv6", "short-port", "unreachable-entry"} {
 				users := []string{"PORT"}
 				if kind == "ntlm" {
 					users = []string{"PORT", "", "xPORT"}
@@ -105,10 +107,10 @@ func CheckC03(l *Lab, verifDir string) int {
 					users = []string{"PORT", "xPORT"}
 				}
 				for _, u := range users {
-					if l.Quick() && (hl == "ipv6" || hl == "short-port") && mode != "roundrobin" {
+					if l.Quick() && (hl == "ipv6" || hl == "short-port" || hl == "unreachable-entry") && mode != "roundrobin" {
 						continue
 					}
-					cfgs = append(cfgs, c03Cfg{id, kind, mode, hl, u})
+					cfgs = append(cfgs, c03Cfg{ID: id, Kind: kind, Mode: mode, HostList: hl, User: u, NoVerifyIP: kind == "openid" && id%2 == 1})
 					id++
 				}
 			}
@@ -163,6 +165,7 @@ func c03One(l *Lab, rep *Report, idp *IdP, c c03Cfg) {
 	user := strings.Replace(c.User, "PORT", port, 1)
 	var hosts []string
 	var extraReq [][2]string
+	altTarget := "127.0.0.2" // alternate resource name used in requests that carry alternates
 	switch c.HostList {
 	case "literal":
 		hosts = []string{a.Addr(), other.Addr()}
@@ -182,6 +185,23 @@ func c03One(l *Lab, rep *Report, idp *IdP, c c03Cfg) {
 		all = append(all, sp, lp)
 		hosts = []string{sp.Addr(), other.Addr()}
 		extraReq = append(extraReq, [2]string{"127.0.0.1", fmt.Sprint(lp.Port)})
+	case "unreachable-entry":
+		// an entry nothing listens on, and a listener on the same port of another address
+		// (reachable only by following an alternate name)
+		ub, err := NewBackend("127.0.0.2")
+		if err != nil {
+			rep.Inconclusive("no 127.0.0.2 listener")
+			return
+		}
+		all = append(all, ub)
+		if probe, err := net.Listen("tcp", fmt.Sprintf("127.0.0.1:%d", ub.Port)); err != nil {
+			rep.Inconclusive("port of the unreachable entry is taken")
+			return
+		} else {
+			probe.Close()
+		}
+		hosts = []string{fmt.Sprintf("127.0.0.1:%d", ub.Port), other.Addr()}
+		altTarget = "127.0.0.2"
 	case "ipv6":
 		if v6 == nil {
 			rep.Inconclusive("no ::1 listener")
@@ -190,6 +210,9 @@ func c03One(l *Lab, rep *Report, idp *IdP, c c03Cfg) {
 		hosts = []string{fmt.Sprintf("[::1]:%d", v6.Port), a.Addr()}
 	}
 	cfg := &GWConfig{Tls: "disable", Hosts: hosts, HostSelection: c.Mode, Strace: true, EnableClipboard: true}
+	if c.NoVerifyIP {
+		cfg.VerifyClientIp = BoolP(false)
+	}
 	var fa *FakeAuth
 	var hdr Hdr
 	if c.Kind == "openid" {
@@ -306,6 +329,18 @@ func c03One(l *Lab, rep *Report, idp *IdP, c c03Cfg) {
 		} else {
 			reqs = append(reqs, mkReq("decimal-ip", "2130706433", pt), mkReq("short-ip", "127.1", pt), mkReq("zero-padded", "127.000.000.001", pt), mkReq("localhost", "localhost", pt))
 		}
+		// alternate resource names behind the resource name: only the resource name counts
+		withAlts := func(class, name string, port uint16, alts ...string) c03Req {
+			r := mkReq(class, name, port)
+			r.Nalt = byte(len(alts))
+			for _, an := range alts {
+				ab := enc(an)
+				r.Name = append(append(append([]byte(nil), r.Name...), byte(len(ab)), byte(len(ab)>>8)), ab...)
+			}
+			return r
+		}
+		reqs = append(reqs, withAlts("entry-with-alternate", h, pt, altTarget), withAlts("entry-with-alternates", h, pt, "evil.example", altTarget, "127.0.0.3"),
+			withAlts("denied-with-allowed-alternate", h, pt+1, h), withAlts("denied-with-allowed-alternate", "x"+h, pt, h, tgt))
 		// raw UTF-16 abuse
 		n := enc(h)
 		reqs = append(reqs,
